@@ -51,6 +51,9 @@ def h_values(params, vals, ctx):
     # in this grammar ('.link 0 <newline> ^D5' is '.link 0 ^ D5'), so a label precedes it
     stmt = ("W: " + ops if d == "implicit" else (d + " " + ops).rstrip())
     text = ".link {B}\n" + (".byte 1\n" if odd else "") + stmt + "\n"
+    if params.get("late_link"):
+        # base unknown while the directive is compiled: its announced size, not its content, advances the location counter
+        text = (".byte 1\n" if odd else "") + stmt + "\nAFTER: .byte 5\n.link {B}\n"
     o = assemble([("a.mac", text)], vals, route=ctx.route)
     ctx.observe_outcome(o)
     addr = b + (1 if odd else 0)
@@ -77,6 +80,10 @@ def h_values(params, vals, ctx):
         exp += [0] * size
     for n in names:
         exp += le_bytes(vals[n], size, dword=(d == ".dword"))
+    if params.get("late_link"):
+        exp += [5]
+        if not (o.symbol("AFTER") == b + len(exp) - 1):
+            return False
     code = o.code
     if len(code) != len(exp):
         return False
@@ -281,6 +288,10 @@ def obligations(tier, seed):
                 obs.append(Ob(oid=f"values/{d}/{k}/{'odd' if odd else 'even'}-prefix", harness=H,
                               params={"dir": d, "arity": k, "odd_prefix": odd}, vars=vars_, timeout=300, per_path=60,
                               pre="every integer value; 0 <= B < 65536"))
+                if k in (0, 2) or tier == "thorough":
+                    obs.append(Ob(oid=f"values-late-link/{d}/{k}/{'odd' if odd else 'even'}-prefix", harness=H,
+                                  params={"dir": d, "arity": k, "odd_prefix": odd, "late_link": True}, vars=vars_, timeout=300, per_path=60,
+                                  pre="every integer value; 0 <= B < 65536; .link at the end of the source"))
     for d in (".blkb", ".blkw"):
         obs.append(Ob(oid=f"block/{d}", harness=HB, params={"dir": d, "small_max": 24 if tier == "thorough" else 12},
                       vars={"N": "int", "B": "int"}, timeout=300, per_path=60,
